@@ -90,6 +90,21 @@ pub enum FloatCtor {
     NonContigDecPerfect,
 }
 
+#[derive(Clone, Copy, Debug, Serialize, Deserialize, PartialEq, Eq, Hash)]
+pub enum TableCtor {
+    ContigFixed,
+    LookupContigFixed,
+    NonContigEncFixed,
+    NonContigDecFixed,
+    LookupNonContigFixed,
+    LookupNonContigFast,
+    LookupNonContigPerfect,
+    NonContigEncFast,
+    NonContigDecFast,
+    NonContigEncPerfect,
+    NonContigDecPerfect,
+}
+
 #[derive(Clone, Debug, Serialize, Deserialize, PartialEq)]
 pub enum BadCdf {
     /// well-behaved Gaussian(mean, std)
@@ -112,6 +127,10 @@ pub enum PoisonTrace {
     Cdf { pp: usize, mean: f64, std: f64, lo: i32, hi: i32, bad: BadCdf, queries: Vec<i64>, table: bool },
     /// quantile_function with out-of-range quantiles on valid models
     Quantile { pp: usize, kind: u8, n: usize, quantiles: Vec<u64> },
+    /// fixed-point tables and symbol lists of any shape (empty, zeros, oversized, wrong total,
+    /// mismatched symbol / probability counts) into every table constructor, then *valid*
+    /// queries on whatever model is returned
+    Tables { ctor: TableCtor, pp: usize, probs: Vec<u64>, #[serde(with = "fser::vec")] fprobs: Vec<f64>, n_syms: usize, infer_last: bool, queries: Vec<u64> },
     /// a *valid* (if extreme) model spec, built and swept without any guard: an overflow
     /// panic here is arithmetic that is only correct because release builds wrap
     ValidModel { spec: crate::model::ModelSpec },
@@ -174,6 +193,16 @@ pub fn exec(t: &PoisonTrace, ctx: &mut Ctx) -> Result<(), Violation> {
                 1 => cdf_u16_12(*mean, *std, *lo, *hi, bad, queries, *table, ctx),
                 2 => cdf_u32_24(*mean, *std, *lo, *hi, bad, queries, *table, ctx),
                 _ => cdf_u32_32(*mean, *std, *lo, *hi, bad, queries, *table, ctx),
+            }
+            Ok(())
+        }
+        PoisonTrace::Tables { ctor, pp, probs, fprobs, n_syms, infer_last, queries } => {
+            ctx.stats.hit("fault-malformed-table");
+            ctx.stats.hit(&format!("tablector-{:?}", ctor));
+            match pp % 3 {
+                0 => tables_u8_8(*ctor, probs, fprobs, *n_syms, *infer_last, queries, ctx),
+                1 => tables_u16_12(*ctor, probs, fprobs, *n_syms, *infer_last, queries, ctx),
+                _ => tables_u16_16(*ctor, probs, fprobs, *n_syms, *infer_last, queries, ctx),
             }
             Ok(())
         }
@@ -355,6 +384,91 @@ floats_impl!(floats_u16_16, u16, 16);
 floats_impl!(floats_u32_24, u32, 24);
 floats_impl!(floats_u32_32, u32, 32);
 
+
+macro_rules! tables_impl {
+    ($name:ident, $Prob:ty, $P:literal) => {
+        #[allow(clippy::too_many_arguments)]
+        fn $name(ctor: TableCtor, probs: &[u64], fprobs: &[f64], n_syms: usize, infer_last: bool, queries: &[u64], ctx: &mut Ctx) {
+            use constriction::stream::model::{ContiguousLookupDecoderModel, NonContiguousLookupDecoderModel};
+            let pr: Vec<$Prob> = probs.iter().map(|&x| crate::model::from_u64::<$Prob>(x)).collect();
+            let syms: Vec<usize> = (0..n_syms).map(|i| i * 3 + 1).collect();
+            let qs: Vec<$Prob> = queries.iter().map(|q| crate::model::from_u64::<$Prob>(*q % (1u64 << $P))).collect();
+            macro_rules! dec_queries {
+                ($m:expr) => {{
+                    match $m {
+                        Some(Ok(m)) => {
+                            ctx.stats.hit("malformed-table-accepted");
+                            for q in &qs { guarded(ctx, "quantile", || { let _ = m.quantile_function(*q); }); }
+                        }
+                        _ => ctx.stats.hit("malformed-table-rejected"),
+                    }
+                }};
+            }
+            macro_rules! enc_queries {
+                ($m:expr) => {{
+                    match $m {
+                        Some(Ok(m)) => {
+                            ctx.stats.hit("malformed-table-accepted");
+                            for q in queries { guarded(ctx, "lcp", || { let _ = m.left_cumulative_and_probability((*q % 40) as usize); }); }
+                        }
+                        _ => ctx.stats.hit("malformed-table-rejected"),
+                    }
+                }};
+            }
+            match ctor {
+                TableCtor::ContigFixed => {
+                    let m = guarded(ctx, "ctor", || ContiguousCategoricalEntropyModel::<$Prob, Vec<$Prob>, $P>::from_nonzero_fixed_point_probabilities(pr.iter(), infer_last));
+                    if let Some(Ok(m)) = &m { for q in queries { guarded(ctx, "lcp", || { let _ = m.left_cumulative_and_probability((*q % 40) as usize); }); } }
+                    dec_queries!(m);
+                }
+                TableCtor::LookupContigFixed => {
+                    let m = guarded(ctx, "ctor", || ContiguousLookupDecoderModel::<$Prob, Vec<$Prob>, Box<[$Prob]>, $P>::from_nonzero_fixed_point_probabilities(pr.iter(), infer_last));
+                    dec_queries!(m);
+                }
+                TableCtor::NonContigEncFixed => {
+                    let m = guarded(ctx, "ctor", || NonContiguousCategoricalEncoderModel::<usize, $Prob, $P>::from_symbols_and_nonzero_fixed_point_probabilities(syms.iter().cloned(), pr.iter(), infer_last));
+                    enc_queries!(m);
+                }
+                TableCtor::NonContigDecFixed => {
+                    let m = guarded(ctx, "ctor", || NonContiguousCategoricalDecoderModel::<usize, $Prob, Vec<($Prob, usize)>, $P>::from_symbols_and_nonzero_fixed_point_probabilities(syms.iter().cloned(), pr.iter(), infer_last));
+                    dec_queries!(m);
+                }
+                TableCtor::LookupNonContigFixed => {
+                    let m = guarded(ctx, "ctor", || NonContiguousLookupDecoderModel::<usize, $Prob, Vec<($Prob, usize)>, Box<[$Prob]>, $P>::from_symbols_and_nonzero_fixed_point_probabilities(syms.iter().cloned(), pr.iter(), infer_last));
+                    dec_queries!(m);
+                }
+                TableCtor::LookupNonContigFast => {
+                    let m = guarded(ctx, "ctor", || NonContiguousLookupDecoderModel::<usize, $Prob, Vec<($Prob, usize)>, Box<[$Prob]>, $P>::from_symbols_and_floating_point_probabilities_fast(syms.iter().cloned(), fprobs, None));
+                    dec_queries!(m);
+                }
+                TableCtor::LookupNonContigPerfect => {
+                    let m = guarded(ctx, "ctor", || NonContiguousLookupDecoderModel::<usize, $Prob, Vec<($Prob, usize)>, Box<[$Prob]>, $P>::from_symbols_and_floating_point_probabilities_perfect(syms.iter().cloned(), fprobs));
+                    dec_queries!(m);
+                }
+                TableCtor::NonContigEncFast => {
+                    let m = guarded(ctx, "ctor", || NonContiguousCategoricalEncoderModel::<usize, $Prob, $P>::from_symbols_and_floating_point_probabilities_fast(syms.iter().cloned(), fprobs, None));
+                    enc_queries!(m);
+                }
+                TableCtor::NonContigDecFast => {
+                    let m = guarded(ctx, "ctor", || NonContiguousCategoricalDecoderModel::<usize, $Prob, Vec<($Prob, usize)>, $P>::from_symbols_and_floating_point_probabilities_fast(syms.iter().cloned(), fprobs, None));
+                    dec_queries!(m);
+                }
+                TableCtor::NonContigEncPerfect => {
+                    let m = guarded(ctx, "ctor", || NonContiguousCategoricalEncoderModel::<usize, $Prob, $P>::from_symbols_and_floating_point_probabilities_perfect(syms.iter().cloned(), fprobs));
+                    enc_queries!(m);
+                }
+                TableCtor::NonContigDecPerfect => {
+                    let m = guarded(ctx, "ctor", || NonContiguousCategoricalDecoderModel::<usize, $Prob, Vec<($Prob, usize)>, $P>::from_symbols_and_floating_point_probabilities_perfect(syms.iter().cloned(), fprobs));
+                    dec_queries!(m);
+                }
+            }
+        }
+    };
+}
+tables_impl!(tables_u8_8, u8, 8);
+tables_impl!(tables_u16_12, u16, 12);
+tables_impl!(tables_u16_16, u16, 16);
+
 macro_rules! cdf_impl {
     ($name:ident, $Prob:ty, $P:literal) => {
         #[allow(clippy::too_many_arguments)]
@@ -424,7 +538,32 @@ fn poison_value(rng: &mut Rng) -> f64 {
 pub fn generate(seed: u64, _prop: &str, _thorough: bool) -> PoisonTrace {
     let mut root = Rng::new(seed);
     let mut rng = root.fork("faults");
-    match rng.below(12) {
+    match rng.below(15) {
+        12 | 13 | 14 => {
+            let ctor = *rng.pick(&[TableCtor::ContigFixed, TableCtor::LookupContigFixed, TableCtor::NonContigEncFixed, TableCtor::NonContigDecFixed, TableCtor::LookupNonContigFixed, TableCtor::LookupNonContigFast, TableCtor::LookupNonContigPerfect, TableCtor::NonContigEncFast, TableCtor::NonContigDecFast, TableCtor::NonContigEncPerfect, TableCtor::NonContigDecPerfect]);
+            let pp = rng.usize(3);
+            let p = [8u32, 12, 16][pp];
+            let total = 1u64 << p;
+            let n = rng.usize(7);
+            let mut probs: Vec<u64> = Vec::new();
+            let mut left = total;
+            for i in 0..n {
+                let x = match rng.below(6) {
+                    0 => 0,
+                    1 => total,
+                    2 => total - 1,
+                    3 => 1,
+                    _ => if left > 1 { 1 + rng.below(left - 1) } else { 1 },
+                };
+                let x = if i + 1 == n && rng.chance(2, 3) { left } else { x };
+                left = left.saturating_sub(x);
+                probs.push(x);
+            }
+            let fprobs: Vec<f64> = (0..n).map(|_| rng.f64()).collect();
+            let n_syms = match rng.below(4) { 0 => n, 1 => n.saturating_sub(1 + rng.usize(2)), 2 => n + 1 + rng.usize(2), _ => n };
+            let queries = (0..6).map(|_| rng.next_u64()).collect();
+            PoisonTrace::Tables { ctor, pp, probs, fprobs, n_syms, infer_last: rng.chance(1, 3), queries }
+        }
         10 | 11 => {
             // valid float tables straight from the raw generator (no validation build)
             let (pb, p) = *rng.pick(&[(8u8, 8u8), (16, 12), (16, 16), (32, 24), (32, 32), (8, 5), (16, 9)]);
